@@ -581,6 +581,15 @@ func (c17) RunCase(c fw.Case, env *fw.Env) *fw.CaseResult {
 			r.checkFailedList("update", failed.ids, want, failed.msgs, degraded, len(failed.ids) > 0)
 		case op == 4: // delete
 			del := mix(1 + rng.IntN(8))
+			if forcedIds == nil && len(del) >= 2 && rng.IntN(4) == 0 {
+				// the API does not ask for distinct ids: name one or two of them again, somewhere
+				for k := 0; k < 1+rng.IntN(2); k++ {
+					again := del[rng.IntN(len(del))]
+					at := rng.IntN(len(del) + 1)
+					del = append(del[:at], append([]uuid.UUID{again}, del[at:]...)...)
+				}
+				res.Stat("deletes_naming_an_id_twice", 1)
+			}
 			strs := make([]string, len(del))
 			for j, id := range del {
 				strs[j] = id.String()
@@ -594,7 +603,12 @@ func (c17) RunCase(c fw.Case, env *fw.Env) *fw.CaseResult {
 			}
 			failed := parseFailedPoints(resp)
 			var want []uuid.UUID
+			judged := map[uuid.UUID]bool{}
 			for _, id := range del {
+				if judged[id] {
+					continue // named twice: the failed list is compared as a set
+				}
+				judged[id] = true
 				_, live := r.m.Docs[id]
 				if !live || degraded && down[place[id]] {
 					want = append(want, id)
@@ -603,7 +617,7 @@ func (c17) RunCase(c fw.Case, env *fw.Env) *fw.CaseResult {
 					r.dead = append(r.dead, id)
 				}
 			}
-			r.checkFailedList("delete", failed.ids, want, failed.msgs, degraded, len(failed.ids) > 0)
+			r.checkFailedList("delete", dedupIds(failed.ids), want, failed.msgs, degraded, len(failed.ids) > 0)
 		case op == 5:
 			r.checkIdReads(entry, col, degraded, down, place)
 		default:
